@@ -1,4 +1,4 @@
-package main
+package c05
 
 // C05 generators: exhaustive small scope → seeded random → malformed, for the correspondence streams;
 // then the oracle streams (c05oracle.go).
